@@ -19,6 +19,8 @@
 (*   CallWriter module_writer(source, path) instead of Mkstemp..Move      *)
 (*   Load      compat.load_module(path); magic-number test                *)
 (* A process may die at any label (Crash); nothing is cleaned up then.     *)
+(* A writing call may also FAIL (Fail: OSError, the process lives on and   *)
+(* the constructor raises).                                                *)
 (* History steps (modify the source with a newer / equal / older mtime,    *)
 (* tick, delete the module file, replace it by one of another generator    *)
 (* version) happen only while no construction is running.                  *)
@@ -135,7 +137,16 @@ Crash(p)   == /\ pc[p] # "idle" /\ pc' = [pc EXCEPT ![p] = "idle"] /\ loc' = [lo
               /\ \/ tmp' = tmp
                  \/ pc[p] = "Write" /\ tmp' = [tmp EXCEPT ![p].bytes = 1]       \* died midway through os.write
               /\ UNCHANGED <<now, src, mod, dir>>
-Step(p) == Begin(p) \/ CheckDir(p) \/ MkDir(p) \/ StatSrc(p) \/ Exists(p) \/ StatMod(p) \/ ReadSrc(p) \/ Mkstemp(p) \/ Write(p) \/ Close(p)
+(* ---- a writing call FAILS (OSError): the process lives on, the error propagates out of the constructor.  Nothing is
+   cleaned up by the code; inside Write half of the bytes may have reached the temp file *)
+FailLabels == {"Mkstemp", "Write", "Close", "Move"}
+Fail(p)    == /\ pc[p] \in FailLabels
+              /\ pc' = [pc EXCEPT ![p] = "Failed"] /\ loc' = loc
+              /\ \/ tmp' = tmp /\ last' = [ev |-> "fail", at |-> pc[p], p |-> p, mid |-> FALSE]
+                 \/ pc[p] = "Write" /\ tmp' = [tmp EXCEPT ![p].bytes = 1] /\ last' = [ev |-> "fail", at |-> pc[p], p |-> p, mid |-> TRUE]
+              /\ UNCHANGED <<now, src, mod, dir>>
+Raise(p)   == /\ pc[p] = "Failed" /\ Go(p, "idle", Idle, [ev |-> "failexc"]) /\ UNCHANGED <<now, src, mod, tmp, dir>>
+Step(p) == Fail(p) \/ Raise(p) \/ Begin(p) \/ CheckDir(p) \/ MkDir(p) \/ StatSrc(p) \/ Exists(p) \/ StatMod(p) \/ ReadSrc(p) \/ Mkstemp(p) \/ Write(p) \/ Close(p)
            \/ Move(p) \/ CallWriter(p) \/ Load(p) \/ LoadFail(p) \/ Done(p)
 Env == Tick \/ DeleteMod \/ OldGen \/ \E m \in 0..MaxNow : Modify(m)
 Next == Env \/ \E p \in Procs : Step(p) \/ Crash(p)
